@@ -229,6 +229,28 @@ func rulesC04(e *Engine, r *Report) {
 				func(l LabelSet) bool { return !l.Has("versioned") || l.Has("prevSet") }, "store of <entry>.prev = part.GetPrev() in the same iteration")
 		}
 	}
+	// ---------------------------------------------------------------- R04.10
+	r.Rule("R04.10", "recovery parks everything before it releases anything: in Recover no parked file is entered into the cache as validated after the first one was handed to the finalize chain - a predecessor that was logged but not yet moved when the receiver went down is `logged` in the refilled cache, which isFileReady takes for delivered, until Recover has re-entered it as validated")
+	if fn := needFn(e, r, "R04.10", "stage.(*Stage).Recover"); fn != nil {
+		starts := e.findInstrs(fn, "go call(stage.(*Stage).finalizeQueue)(p0, §)", false)
+		var gos []ssa.Instruction
+		Instrs(fn, func(in ssa.Instruction) {
+			if g, ok := in.(*ssa.Go); ok && e.CalleeKey(g.Common()) == "stage.(*Stage).finalizeQueue" {
+				gos = append(gos, in)
+			}
+		})
+		_ = starts
+		r.Min("R04.10", "hand-overs to the finalize chain in Recover", len(gos), 1)
+		for i, g := range gos {
+			res := e.Flow(fn, FlowOpts{StartAfter: g, Target: e.instrMatch("call(stage.(*Stage).toCache)(p0, §, " + sc.validated + ")")})
+			n := 0
+			for _, ws := range res.At {
+				n += len(ws)
+			}
+			r.Check(n == 0 && !res.Undecided, "R04.10", fmt.Sprintf("stage.(*Stage).Recover: no toCache(validated) after hand-over #%d", i+1), e.InstrPos(g),
+				"a parked file is entered as validated after another one was already handed to the finalize chain: the one handed over may find its predecessor still `logged` (taken for delivered) and overtake it", res.Evals)
+		}
+	}
 }
 
 // allocsOf returns the composite-literal allocations of type *T in fn.
